@@ -158,7 +158,7 @@ def _fmt_atom(a_):
     return ("present(%s)" % _fmt_desc(a_[1])) if a_[0] == "atom" else a_[1]
 
 
-def run(ctx):
+def run(ctx, for_simplifier=False):
     ctx.rule("R11.1", "every ExprRef-carrying field reachable from TransitionSystem (computed from the type definitions) is read by get_all_exprs and re-pointed by update_expressions from update(its own old value), falling back to its own old value")
     ctx.rule("R11.2", "do_transform passes the unmodified result of get_all_exprs and its mode parameter to do_transform_expr, and the lookup closure uses get_fixed_point exactly under FixedPoint on the same result map")
     ctx.rule("R11.3", "simplify_expressions = do_transform(ctx, sys, FixedPoint, simplify)")
@@ -237,6 +237,8 @@ def run(ctx):
         if key not in done:
             ctx.violation("R11.1", "update_expressions:%s" % fmt(key), u["span"], "update_expressions never re-points %s: after a transformation it still refers to the old expression" % fmt(key))
     do_transform(ctx)
+    if for_simplifier:
+        return          # C01 shares R11.1-R11.3 (system-wide simplification); the rest is C11's own
     anon(ctx)
     # the expression-level rebuild step (expr/transform.rs, anchored by this property too) is a prerequisite
     from . import c01
